@@ -19,7 +19,7 @@ func init() {
 	register(&Prop{
 		ID:         "C12",
 		Title:      "Numbers behave as exact decimals, not floats or strings",
-		Decided:    "the representation of numbers, which is fixed by types and by the library routines number strings flow through (a 38-digit decimal cannot survive float64): (R1) a census of every lossy site on the numeric path – fields of binary floating-point type that hold number objects, parses of attribute numerals into float64, float formatting back into numerals, float arithmetic and float comparison on number objects; (R2) the rendering of an N-typed key attribute must pass through a canonicalising function (numerically equal numerals → equal key text); (R3) key lists holding N- or B-typed sort keys must be ordered by a typed comparator, not by sort.Strings on the text rendering; (R4) numbers not targeted by an update are not rewritten (= C07.R6). Every site found today is a known finding (the library represents numbers as float64 by construction); the check reports any new lossy site or any known site that changes; (R5) SET stores a copy of a number operand (= C07.R11): in-place arithmetic on the source attribute does not reach it; (R6) number objects carry their value and nothing else (no remembered numeral).",
+		Decided:    "the representation of numbers, which is fixed by types and by the library routines number strings flow through (a 38-digit decimal cannot survive float64): (R1) a census of every lossy site on the numeric path – fields of binary floating-point type that hold number objects, parses of attribute numerals into float64, float formatting back into numerals, float arithmetic and float comparison on number objects; (R2) the rendering of an N-typed key attribute must pass through a canonicalising function (numerically equal numerals → equal key text); (R3) key lists holding N- or B-typed sort keys must be ordered by a typed comparator, not by sort.Strings on the text rendering; (R4) numbers not targeted by an update are not rewritten (= C07.R6). Every site found today is a known finding (the library represents numbers as float64 by construction); the check reports any new lossy site or any known site that changes; (R5) SET stores a copy of a number operand (= C07.R11): in-place arithmetic on the source attribute does not reach it; (R6) number objects carry their value and nothing else (no remembered numeral); (R7) Number.Value is assigned only by the number's own methods or while the object is built: the evaluator never writes the value of an operand it was handed.",
 		NotDecided: "everything value-level: rounding, the 38-digit limit, exponent range, results of arithmetic.",
 		Rules: []RuleDef{
 			{ID: "R1", Desc: "census of lossy numeric sites (taint on SSA + type census)", Run: c12R1},
@@ -34,6 +34,7 @@ func init() {
 			}},
 			{ID: "R5", Desc: "a number stored by SET is a copy of its operand: arithmetic that works in place on the source (ADD) does not change the stored value (= C07.R11)", Run: aliasRule("R5", c07R11, nil)},
 			{ID: "R6", Desc: "a number object is its value: no second representation (the numeral it was read from, a cached text) that equality or arithmetic would have to keep in step (T-FIELD closure)", Run: func(e *Engine) { stateModelClosed(e, "R6", func(k string) bool { return k == "lang.Number" || k == "lang.NumberSet" }) }},
+			{ID: "R7", Desc: "the value of a number object is written only by the number's own methods (the in-place ADD) or while the object is being built: the evaluator never assigns to the Value of an operand it was handed – an operand is the environment's own object for an attribute or placeholder (T-FIELD who-may-write)", Run: c12R7},
 		},
 	})
 }
@@ -319,3 +320,56 @@ func c12R3(e *Engine) {
 }
 
 var _ = fmt.Sprint
+
+// c12R7: `right.Value = -right.Value` inside the evaluator of SET arithmetic negates the attribute or placeholder the
+// operand stands for: a subtraction that writes its right operand.
+func c12R7(e *Engine) {
+	nt := e.namedType("lang", "Number")
+	if !e.anchor("R7", "lang.Number", nt == nil) {
+		return
+	}
+	var vf *types.Var
+	if st, ok := nt.Underlying().(*types.Struct); ok {
+		for i := 0; i < st.NumFields(); i++ {
+			if st.Field(i).Name() == "Value" {
+				vf = st.Field(i)
+			}
+		}
+	}
+	if !e.anchor("R7", "lang.Number.Value", vf == nil) {
+		return
+	}
+	n := 0
+	for fn, all := range e.writersOf(vf, e.all) {
+		// the field is a scalar: only assignments count (a read handed to delete() or append() is not a write of it)
+		var accs []Access
+		for _, a := range all {
+			if a.Kind == "store-field" {
+				accs = append(accs, a)
+			}
+		}
+		if len(accs) == 0 {
+			continue
+		}
+		fresh := true
+		for _, a := range accs {
+			if !a.Fresh {
+				fresh = false
+			}
+		}
+		construct := e.fname(fn) + ":writes-Number.Value"
+		n++
+		recv := fn.Signature.Recv()
+		switch {
+		case fresh:
+			e.pass("R7", construct, e.ipos(accs[0].Instr), "the number is being built here")
+		case recv != nil && namedOf(recv.Type()) == nt:
+			e.pass("R7", construct, e.ipos(accs[0].Instr), "method of the number (who may call it is C07.R2's and C06.R6's business)")
+		default:
+			e.fail("R7", construct, e.ipos(accs[0].Instr), "%s assigns to the Value of a number object it did not build: the object is the environment's own for the attribute or placeholder the operand names, so the operand itself changes (`SET a = a - b` rewrites b; a placeholder used twice changes between its uses)", e.fname(fn))
+		}
+	}
+	if n == 0 {
+		e.pass("R7", "lang.Number.Value:writers", "-", "no function assigns to Number.Value outside composite literals")
+	}
+}
